@@ -186,13 +186,13 @@ pub fn vector_mut_copy(vm: &mut Vm) -> Result<VCell, Error> {
     let start = start.unwrap_or(0);
     let end = end.unwrap_or_else(|| from_vector.len());
 
-    if ((end - start) > to_vector.len()) || (at + end) > to_vector.len() {
+    if ((end - start) > to_vector.len()) || (at + (end - start)) > to_vector.len() {
         return Err(InvalidSyntax("vector-copy!: to vector is too small".into()));
     }
 
     for i in start..end {
         let val = from_vector.get(i).unwrap();
-        to_vector.put(i + at, val);
+        to_vector.put(i - start + at, val);
     }
 
     Ok(VCell::Void)
